@@ -30,6 +30,15 @@ FORBIDDEN = re.compile(
     r"Unset Guard Checking|Unset Positivity Checking|Unset Universe Checking|bypass_check|"
     r"type-in-type|impredicative-set|native_compute)\b")
 # standard-library axioms a theorem may depend on, by name (none expected)
+ALL_PROPS = {"C%02d" % i for i in range(1, 17)}
+_PARSER_PROPS = {"C01", "C03", "C04", "C05", "C06", "C07", "C08", "C09", "C10"}
+# which properties' theorems or model streams depend on which generated section of coq/Consts.v
+TRANSLATOR_SECTIONS = {
+    "reader_writer": {"C01", "C02", "C09", "C10", "C11", "C14"},
+    "dimacs_max": _PARSER_PROPS, "lit_max_code": _PARSER_PROPS, "dimacs_words": _PARSER_PROPS,
+    "aiger_header": _PARSER_PROPS, "btor2_names": _PARSER_PROPS, "btor2_keywords": _PARSER_PROPS, "btor2_lowercase": _PARSER_PROPS,
+}
+
 AXIOM_ALLOW = {
     "functional_extensionality_dep", "FunctionalExtensionality.functional_extensionality_dep",
     "proof_irrelevance", "ProofIrrelevance.proof_irrelevance", "classic", "Classical_Prop.classic",
@@ -92,7 +101,16 @@ def build_coq(prop, log, tier="quick"):
     with Lock("coq"):
         rc, out = sh([sys.executable, os.path.join(ROOT, "tools", "translate.py")], cwd=ROOT)
         log.append(out)
-        if rc != 0:
+        stale = []
+        if rc == 3:
+            # some sections of the source no longer have the expected shape; the translator kept their last good text.
+            # That is a broken obligation for the properties that depend on those constants, and only for them.
+            secs = re.findall(r"translate\.py: section (\w+): ([^\n]*)", out)
+            hit = [(n, e) for n, e in secs if prop in TRANSLATOR_SECTIONS.get(n, ALL_PROPS)]
+            if hit:
+                return False, 0, 0, [], ["translator: section %s: %s" % hit[0]], out
+            stale = ["translator: section %s no longer matches the source (kept its last good text; not used by this property)" % n for n, _ in secs]
+        elif rc != 0:
             return False, 0, 0, [], ["translator: " + out.strip().split("\n")[-1]], out
         if not os.path.exists(os.path.join(COQ, "Makefile")):
             sh("coq_makefile -f _CoqProject -o Makefile", cwd=COQ)
@@ -115,7 +133,7 @@ def build_coq(prop, log, tier="quick"):
     # parse Print Assumptions blocks: one per theorem, in order
     blocks = re.split(r"(?=Closed under the global context|Axioms:)", out)
     blocks = [b for b in blocks if b.startswith("Closed") or b.startswith("Axioms:")]
-    assumptions, failing, discharged = [], [], 0
+    assumptions, failing, discharged = list(stale), [], 0
     if len(blocks) != len(theorems):
         failing.append("expected %d Print Assumptions blocks, saw %d" % (len(theorems), len(blocks)))
     for name, b in zip(theorems, blocks):
